@@ -64,11 +64,13 @@ def ev(e, x, y):
 
 
 def gen_bexpr(rng, depth=1):
-    c = int(rng.integers(0, 5 if depth else 2))
+    c = int(rng.integers(0, 6 if depth else 2))
     if c < 2:
         return (["le", "lt"][c], gen_expr(rng), gen_expr(rng))
     if c == 4:
         return ("not", gen_bexpr(rng, depth - 1))
+    if c == 5:
+        return ("xor", gen_bexpr(rng, depth - 1), gen_bexpr(rng, depth - 1))       # Python's ^ on truth values: exclusive or
     return (["and", "or"][c - 2], gen_bexpr(rng, depth - 1), gen_bexpr(rng, depth - 1))
 
 
@@ -77,6 +79,8 @@ def py_bexpr(b):
         return "(" + py_expr(b[1]) + (" <= " if b[0] == "le" else " < ") + py_expr(b[2]) + ")"
     if b[0] == "not":
         return "(not " + py_bexpr(b[1]) + ")"
+    if b[0] == "xor":
+        return "(" + py_bexpr(b[1]) + " ^ " + py_bexpr(b[2]) + ")"
     return "(" + py_bexpr(b[1]) + " " + b[0] + " " + py_bexpr(b[2]) + ")"
 
 
@@ -85,6 +89,9 @@ def coq_bexpr(b):
         return f"({'Le' if b[0] == 'le' else 'Lt'} {coq_expr(b[1])} {coq_expr(b[2])})"
     if b[0] == "not":
         return f"(Not {coq_bexpr(b[1])})"
+    if b[0] == "xor":
+        p_, q_ = coq_bexpr(b[1]), coq_bexpr(b[2])
+        return f"(Or (And {p_} (Not {q_})) (And (Not {p_}) {q_}))"
     return f"({'And' if b[0] == 'and' else 'Or'} {coq_bexpr(b[1])} {coq_bexpr(b[2])})"
 
 
@@ -97,6 +104,8 @@ def bev(b, x, y):
         return not bev(b[1], x, y)
     if b[0] == "and":
         return bev(b[1], x, y) and bev(b[2], x, y)
+    if b[0] == "xor":
+        return bev(b[1], x, y) != bev(b[2], x, y)
     return bev(b[1], x, y) or bev(b[2], x, y)
 
 
@@ -118,10 +127,11 @@ def run(chk):
     # ---------------- A. box on square pixel grids
     for s in range(1, (8 if thorough else 6)):
         n = s * s
-        bounds = [b / 2 for b in range(-1, 2 * s + 1)]
+        bounds = [b / 2 for b in range(-7, 2 * s + 6)]          # also bounds well outside the grid on both sides
         boxes = [(a, b, c, d) for a in bounds for b in bounds if a < b for c in bounds for d in bounds if c < d]
-        if not thorough and len(boxes) > 60:
-            boxes = [boxes[i] for i in rng.choice(len(boxes), size=60, replace=False)]
+        cap = 400 if thorough else 70
+        if len(boxes) > cap:
+            boxes = [boxes[i] for i in rng.choice(len(boxes), size=cap, replace=False)]
         for (x0, x1, y0, y1) in boxes:
             ranking = rng.permutation(n).astype(int)
             case = {"helper": "get_constrained_sensors_indices", "side": s, "box": [x0, x1, y0, y1], "ranking": ranking.tolist()}
